@@ -14,3 +14,13 @@ Theorem C02_example :
   end.
 Proof. vm_compute. auto. Qed.
 Print Assumptions C02_example.
+
+(* every route calculateSingle returns honours the time limits, the walking maxima, the first-waiting cap
+   and the scenario/exclusion rules — both query directions, fresh or kept rows, any excluded lines *)
+From TrV Require Import Proofs.Limits.
+Theorem C02_single_route_limits : forall d s p acc egr fresh r used,
+  wf_data_b d = true -> wf_tables_b d p acc egr = true -> wf_params_b p = true ->
+  calc_single d (conn_set d s) p acc egr fresh = Ok (r, used) ->
+  limits_ok_b d s p r = true.
+Proof. exact calc_single_limits. Qed.
+Print Assumptions C02_single_route_limits.
